@@ -530,6 +530,7 @@ func logAccounts(config *sharedConfig.PoliciesConfig) {
 func BuildPolicyData(config *sharedConfig.PoliciesConfig, diagnosisFreeReverted bool) (
 	*PoliciesData, error,
 ) {
+	inferPluginTypes(config)
 	policyTree, err := BuildEndpointPolicyTree(config.Endpoints)
 	if err != nil {
 		return nil, errors.Join(errors.New("failed to build policy tree"), err)
@@ -540,6 +541,36 @@ func BuildPolicyData(config *sharedConfig.PoliciesConfig, diagnosisFreeReverted 
 		EndpointPolicyTree:    *policyTree,
 		diagnosisFreeReverted: diagnosisFreeReverted,
 	}, nil
+}
+
+// inferPluginTypes makes every remedy, diagnosis and account authentication
+// infer its type now. Type() infers it on first use and keeps the result in
+// the struct; once the configuration is shared by transactions that first use
+// would be an unsynchronised write next to other transactions' reads.
+func inferPluginTypes(config *sharedConfig.PoliciesConfig) {
+	for i := range config.Global.Remedies {
+		config.Global.Remedies[i].Type()
+	}
+	for i := range config.Global.Diagnosis {
+		config.Global.Diagnosis[i].Type()
+	}
+	for endpointI := range config.Endpoints {
+		endpoint := &config.Endpoints[endpointI]
+		for i := range endpoint.Remedies {
+			endpoint.Remedies[i].Type()
+		}
+		for i := range endpoint.Diagnosis {
+			endpoint.Diagnosis[i].Type()
+		}
+	}
+	for accountID, account := range config.Accounts {
+		auth := &account.Authentication
+		if auth.OAuth == nil && auth.APIKey == nil && auth.Basic == nil {
+			continue // nothing to infer from (Type() would only log a warning)
+		}
+		auth.Type()
+		config.Accounts[accountID] = account
+	}
 }
 
 func notifyEnabledPlugins(config *sharedConfig.PoliciesConfig) {
